@@ -75,6 +75,15 @@ CLAIMED['C03'] = dict(
     note=TA + 'the event-bus emitter goroutine of the store constructor is not executed (emission happens only after openMetadataEntry succeeds, which is what is checked).',
     design='6/C03')
 
+CLAIMED['C07'] = dict(
+    text='Symbolic execution of the seven contact operations of MetadataStore and of the index handlers over the BaseStore/log contract: every '
+         '(state, operation) pair from an injected arbitrary record against the transition table of DESIGN appendix A (error class, nothing appended, '
+         'or exactly one correctly signed event of the documented type carrying contact and device key), argument rules with free seed/key bytes, and '
+         'sequences in which every step is a free choice among the operations on two contacts, compared step by step with the reference lifecycle '
+         '(state, seed, metadata) and with a fresh index replaying the same log.',
+    note=TA + 'sequence length 2 (quick) / 3 (thorough); BaseStore.AddOperation = append + real UpdateIndex (contract); replication of the log itself is not modelled.',
+    design='6/C07, appendix A')
+
 NOT_APPLICABLE = {}
 ALL = ['C%02d' % i for i in range(1, 21)]
 PENDING_REASON = 'no solver-based check registered yet for this property in the current state of /verif (see DESIGN.md section 9)'
